@@ -1,3 +1,93 @@
 //! Helpers shared by the property checks.
 #![allow(dead_code)]
 pub use explore::panics::{guard, install_panic_hook, short_loc};
+
+use serde_json::{json, Value};
+
+/// Outcome of one case executed in a child process (`h3verif --replay <file>`): used for inputs on which a broken
+/// subject may ABORT the process (an allocation of a peer-announced size fails) instead of panicking - an abort
+/// cannot be caught in-process and would take the whole check down with it.
+pub enum Isolated {
+    NoViolation,
+    /// (signature, message) lines the child printed as `observed: <sig>: <msg>`
+    Violations(Vec<(String, String)>),
+    /// killed by a signal (SIGABRT after a failed allocation, SIGSEGV, ...)
+    Aborted(String),
+    TimedOut,
+    /// could not run the child at all
+    Machinery(String),
+}
+
+pub fn run_isolated(property: &str, replay: &Value) -> Isolated {
+    let dir = explore::report::out_root().join("tmp");
+    if std::fs::create_dir_all(&dir).is_err() {
+        return Isolated::Machinery("cannot create the scratch directory".into());
+    }
+    static N: std::sync::atomic::AtomicUsize = std::sync::atomic::AtomicUsize::new(0);
+    let path = dir.join(format!("isolated-{}-{}-{}.json", property, std::process::id(), N.fetch_add(1, std::sync::atomic::Ordering::Relaxed)));
+    let body = json!({"property": property, "signature": "isolated-run", "what": "one case executed in a child process", "replay": replay});
+    if std::fs::write(&path, body.to_string()).is_err() {
+        return Isolated::Machinery("cannot write the case file".into());
+    }
+    let exe = match std::env::current_exe() {
+        Ok(e) => e,
+        Err(e) => return Isolated::Machinery(e.to_string()),
+    };
+    let child = std::process::Command::new(exe)
+        .arg("--replay")
+        .arg(&path)
+        .env("RUST_BACKTRACE", "0")
+        .stdout(std::process::Stdio::piped())
+        .stderr(std::process::Stdio::null())
+        .spawn();
+    let mut child = match child {
+        Ok(c) => c,
+        Err(e) => return Isolated::Machinery(e.to_string()),
+    };
+    let mut stdout = child.stdout.take().unwrap();
+    let reader = std::thread::spawn(move || {
+        let mut s = String::new();
+        let _ = std::io::Read::read_to_string(&mut stdout, &mut s);
+        s
+    });
+    let start = std::time::Instant::now();
+    let status = loop {
+        match child.try_wait() {
+            Ok(Some(st)) => break st,
+            Ok(None) => {
+                if start.elapsed() > std::time::Duration::from_secs(120) {
+                    let _ = child.kill();
+                    let _ = std::fs::remove_file(&path);
+                    return Isolated::TimedOut;
+                }
+                std::thread::sleep(std::time::Duration::from_millis(5));
+            }
+            Err(e) => return Isolated::Machinery(e.to_string()),
+        }
+    };
+    let _ = std::fs::remove_file(&path);
+    let out = reader.join().unwrap_or_default();
+    match status.code() {
+        Some(0) => Isolated::NoViolation,
+        Some(1) => Isolated::Violations(
+            out.lines()
+                .filter_map(|l| l.strip_prefix("observed: "))
+                .filter(|l| *l != "no violation")
+                .map(|l| match l.split_once(": ") {
+                    Some((s, m)) => (s.to_string(), m.to_string()),
+                    None => (l.to_string(), String::new()),
+                })
+                .collect(),
+        ),
+        Some(c) => Isolated::Machinery(format!("child exited with {c}: {}", out.lines().last().unwrap_or(""))),
+        None => {
+            #[cfg(unix)]
+            {
+                use std::os::unix::process::ExitStatusExt;
+                Isolated::Aborted(format!("signal {}", status.signal().unwrap_or(0)))
+            }
+            #[cfg(not(unix))]
+            Isolated::Aborted("signal".into())
+        }
+    }
+}
